@@ -92,6 +92,27 @@ reg('C09', 'exploration',
     TB + 'Real-valued inputs are a finite generic sample used only for the rounding bound; the exactness claim rests on the grids.',
     'exhaustive integer-grid enumeration against exact index-loop reference (bounded exhaustive exploration)', 'DESIGN.md section 7 C09')
 
+reg('C02', 'exploration',
+    'Bounded exhaustive exploration of the forwarding/wiring of every conversion entry point: every dimensional quantity type x every '
+    'unit of its unit type x 3 numeric types x every constructor form, every Create<u> overload, Value(u2), StaticValue<u>, and the '
+    'numbers inside Print/JSON/XML/YAML(u2), and per unit type every container form of Convert/ConvertInPlace/ConvertStatically '
+    '(scalar, array<1,2,3,6,9,17>, vector<0,1,5,64>, PlanarVector, Vector, SymmetricDyad, Dyad), each compared slot by slot with the '
+    'scalar PhQ::Convert of that component (<= 1 ulp) using pairwise distinct slot values; copying forms must not modify their '
+    'argument, in-place == copying, unit-to-itself identity, construct-in-u/read-in-u round trip. quick covers target units '
+    '{u, next(u), standard} for every u; thorough all ordered unit pairs.',
+    TB + 'All entry points forward to one routine per unit, so what can differ is which elements / which count / which table row - '
+    'a finite set of wiring facts that the distinct-slot alphabet exposes; values themselves are a fixed alphabet.',
+    'exhaustive configuration sweep of entry points x units x container forms against the scalar conversion as reference model', 'DESIGN.md section 7 C02')
+reg('C14', 'exploration',
+    'Exhaustive pairwise exploration: for every quantity type, the 4 vector/tensor classes, Dimensions and the 3 model classes x 3 '
+    'numeric types, ALL ordered pairs of a value set S = A^n that forces ties in every leading prefix and contains signed zeros and '
+    'infinities; the six operators must equal lexicographic comparison of the stored components (a reference that is a total order, so '
+    'agreement on all pairs implies the order axioms on S), == implies equal std::hash, and std::set / std::unordered_set store and '
+    'find every element with size equal to the number of equivalence classes.',
+    TB + 'S is a finite alphabet per slot ({-inf,-1,-0,+0,1,+inf} for n<=3, {-1,-0,+0,1} for n=6, {0,1} or {-1,0,1} for n=9); comparison code is '
+    'branch-only on <,>,== of components so the alphabet covers every branch outcome in every slot.',
+    'exhaustive all-pairs enumeration over tie-forcing value grids against lexicographic reference order', 'DESIGN.md section 7 C14')
+
 PENDING = 'check not built yet in this session (planned, see DESIGN.md section 7); not a statement that model checking cannot apply'
 
 
